@@ -96,7 +96,7 @@ def main(argv):
         alg = rng.choice([1, 2])
         ops = []
         for _k in range(rng.randint(3, 8)):
-            n = rng.choice([1000, 1400, 2000, 4000, 4080]) // 16 * 16
+            n = rng.choice([1000, 1400, 2000, 4000, vf.constant("BUF_MAX_SIZE", 4080)]) // 16 * 16
             ops.append("d,%s,%d,%d,%s" % (gen.rbytes(rng, 8, False).hex(), rng.randrange(2 ** 31), rng.randrange(2 ** 31), gen.rbytes(rng, n, False).hex()))
             if rng.random() < 0.2:
                 ops.append("e,0102,get:5:2b0601,1,2")
